@@ -184,7 +184,7 @@ func C04(c *core.Ctx) {
 	e := &enumCtx{c: c, seen: map[string]bool{}}
 	x := &c04{enumCtx: e, bufs: map[int][]byte{}}
 	th := c.Thorough()
-	c.Rep.Bound = "all byte strings up to 6 (quick) / 7 (thorough) bytes over an 8-value alphabet x 30 first bytes x 14 decoders; every truncation, every frame ending early (remaining length adjusted), every wrong remaining length and every single-byte replacement (9 values per position) of a valid corpus; thorough: every pair of replacements within the first 24 bytes"
+	c.Rep.Bound = "well-formed PUBLISH packets of 2 MiB (four-byte length field), whole and cut short; all byte strings up to 6 (quick) / 7 (thorough) bytes over an 8-value alphabet x 30 first bytes x 14 decoders; every truncation, every frame ending early (remaining length adjusted), every wrong remaining length and every single-byte replacement (9 values per position) of a valid corpus; thorough: every pair of replacements within the first 24 bytes"
 	c.Rep.Rule = "ENUM with deviation bound (0, 1, 2 corrupted bytes); every input is presented in a slice with cap == len; oracle: no panic, 0 <= n <= len, fields inside input[:n], and agreement with the reference codec on every well-formed packet; distinct non-trivial = distinct (decoder, shape) accepted as well-formed plus distinct (decoder, length) accepted though malformed"
 	if c.Replay != nil {
 		fmt.Printf("replay of an input-enumeration finding: class %q\n  %s\n  input: %s\n", c.Replay.Scenario, c.Replay.Message, string(c.Replay.Input))
@@ -240,6 +240,18 @@ func C04(c *core.Ctx) {
 		}
 	}
 	c.Rep.Scenarios++
+	// (i') well-formed packets whose remaining length needs the fourth length byte
+	// (2 MiB and more), whole and cut short by one byte
+	if c.NShards <= 1 || c.Shard == 0 {
+		e.class = "large"
+		for _, r := range []int{2097151, 2097152, 2097160} {
+			p := &refcodec.Packet{Type: refcodec.PUBLISH, QoS: 1, ID: 77, Topic: []byte("t/L"), Payload: pat(r-2-3-2, 5)}
+			wire := refcodec.Encode(p)
+			x.one(refcodec.PUBLISH, wire, "valid-large")
+			x.one(refcodec.PUBLISH, wire[:len(wire)-1], "truncated-large")
+			x.one(refcodec.SUBSCRIBE, wire, "foreign-decoder")
+		}
+	}
 	// (ii) corpus: valid, truncated, corrupted
 	e.class = "corpus"
 	for _, p := range corpus() {
